@@ -24,7 +24,6 @@ import (
 	"os"
 	"path/filepath"
 	"reflect"
-	"sort"
 	"strings"
 	"sync"
 
@@ -62,9 +61,9 @@ func main() {
 	}
 	r := evidence.New("C19", "exploration")
 	r.Rule("case = (entry point ∈ {PackManifest v1.0, v1.1, unsupported version, Pack image, Pack artifact}, artifact type ∈ {valid RFC 6838 names incl. lengths 1/127, invalid by each rule incl. 128, empty}, " +
-		"config descriptor given (valid / invalid / empty-JSON media type, content possibly exactly {} under a custom type) | config annotations | neither, layers nil / empty / 1..4 with duplicates, subject absent / plain / carrying artifactType, annotations, platform, urls, data (stored subject must equal the requested descriptor in every field), manifest annotations nil / empty / some with created absent / valid / malformed / empty / edge, " +
+		"config descriptor given (valid / invalid / empty-JSON / absent media type incl. the zero descriptor, content possibly exactly {} under a custom type) | config annotations | neither, layers nil / empty / 1..4 with duplicates, subject absent / plain / carrying artifactType, annotations, platform, urls, data (stored subject must equal the requested descriptor in every field), manifest annotations nil / empty / some with created absent / valid / malformed / empty / edge, " +
 		"target ∈ {memory, oci, file, remote, pusher-only} empty or already holding the placeholder blobs / the whole result, supplied blobs pre-pushed or not, " +
-		"file-store name history ∈ {none, title on manifest / invented config with a fresh name, or a name already taken by a pushed blob / Store.Add / an earlier pack: refusal with ErrDuplicateName or a completely stored result are both accepted, success with missing content is not}, race mode ∈ {quiet, racing writer: Exists says absent and the {} blob is stored just before the library's Push is forwarded, twin: an identical call runs concurrently and both rendezvous in Exists}); every target is wrapped in a recorder. " +
+		"file-store name history ∈ {none, title on manifest / invented config with a fresh name, or a name already taken by a pushed blob / Store.Add / an earlier pack: refusal with ErrDuplicateName or a completely stored result are both accepted, success with missing content is not}, history on deletable targets (oci with and without AutoGC, remote): pack → delete the manifest and/or the invented blobs → pack again with the same or varied input through the same target object, judged by the same success oracles, race mode ∈ {quiet, racing writer: Exists says absent and the {} blob is stored just before the library's Push is forwarded, twin: an identical call runs concurrently and both rendezvous in Exists}); every target is wrapped in a recorder. " +
 		"Success: FetchAll(returned descriptor), parse, field-by-field comparison with an independent builder, existence of invented blobs, CopyGraph into an empty memory store, identical descriptor on repeat with fixed created. " +
 		"Documented rejections: no Push seen (no manifest Push for malformed created). distinct = (entry, artifact-type class, config class, layers class, subject, annotation class, created class, target, preload, race mode); " +
 		"racing modes must succeed exactly like the quiet one (same oracles, same descriptor as a quiet fresh target when created is fixed). non-trivial = a success that was fetched, parsed and compared, or a judged rejection observed through the recorder")
@@ -356,6 +355,9 @@ type caseIn struct {
 	Race         string // "quiet", "writer", "twin" (see recorder)
 	// file-store name history: which of the pushed things carry a title
 	// (= file name) and whether that name is already taken by different content
+	// pack → delete → pack again on the same target object (deletable targets)
+	Redo      string            // "", "same", "variant"
+	DeleteHow string            // "manifest-gc" (oci AutoGC collects the dangling blobs), "manifest-then-blobs", "blobs"
 	NameWhere string            // "", "manifest", "config", "both"
 	NameHist  string            // "", "fresh", "taken-push", "taken-add", "taken-pack"
 	blobs     map[string][]byte // digest -> content of supplied blobs
@@ -528,7 +530,14 @@ func genCase(rng *rand.Rand) *caseIn {
 			c.ConfigClass += "-emptybody"
 		}
 		d := blobDesc(mt, body)
-		if rng.IntN(3) == 0 {
+		if (c.Entry == "v1.0" || c.Entry == "v1.1") && rng.IntN(8) == 0 {
+			// a descriptor without media type: built from digest and size only, or the zero descriptor
+			d.MediaType, c.ConfigClass = "", "given-nomediatype"
+			if rng.IntN(2) == 0 {
+				d, c.ConfigClass = ocispec.Descriptor{}, "given-zero-descriptor"
+			}
+		}
+		if rng.IntN(3) == 0 && d.Digest != "" {
 			d.Annotations = map[string]string{"given": "config"}
 		}
 		c.Config = &d
@@ -651,6 +660,10 @@ func genCase(rng *rand.Rand) *caseIn {
 	}
 	c.Target = pick(rng, []string{"memory", "memory", "oci", "oci", "file", "remote", "pusher-only"})
 	c.Preload = pick(rng, []string{"none", "none", "none", "placeholders", "placeholders", "other-type", "supplied-missing"})
+	if (c.Target == "oci" || c.Target == "remote") && rng.IntN(2) == 0 {
+		c.Redo = pick(rng, []string{"same", "variant"})
+		c.DeleteHow = pick(rng, []string{"manifest-gc", "manifest-gc", "manifest-then-blobs", "blobs"})
+	}
 	c.Race = pick(rng, []string{"quiet", "quiet", "quiet", "quiet", "quiet", "writer", "writer", "twin"})
 	if c.Target == "pusher-only" {
 		c.Race = "quiet" // no Exists to race with
@@ -901,7 +914,7 @@ func runCase(phase string, i int) (res worker.Result) {
 	c := genCase(rng)
 	e := expect(c)
 	w := describe(c)
-	res.Key = strings.Join([]string{c.Entry, c.ATClass, c.ConfigClass, c.LayersClass, c.SubjectClass, c.AnnClass, c.Created, c.Target, c.Preload, c.Race, c.NameWhere + "/" + c.NameHist}, "|")
+	res.Key = strings.Join([]string{c.Entry, c.ATClass, c.ConfigClass, c.LayersClass, c.SubjectClass, c.AnnClass, c.Created, c.Target, c.Preload, c.Race, c.NameWhere + "/" + c.NameHist, c.DeleteHow + "/" + c.Redo}, "|")
 	res.Observe("entry_x_outcome", c.Entry+"/"+e.Reject+e.Unjudged)
 	res.Observe("target_x_preload", c.Target+"/"+c.Preload)
 	res.Count("cases_target_"+c.Target, 1)
@@ -925,14 +938,12 @@ func runCase(phase string, i int) (res worker.Result) {
 
 	// supplied content
 	suppliedPresent := c.Preload != "supplied-missing"
-	if suppliedPresent {
-		var ds []string
-		for d := range c.blobs {
-			ds = append(ds, d)
-		}
-		sort.Strings(ds)
+	pushSupplied := func() bool {
 		done := map[string]bool{}
 		push := func(d ocispec.Descriptor) bool {
+			if d.MediaType == "" {
+				return true // a descriptor without media type is never usable (the call must be refused)
+			}
 			k := d.Digest.String() + "|" + d.MediaType + "|" + d.Annotations["org.opencontainers.image.title"]
 			if done[k] {
 				return true
@@ -946,17 +957,21 @@ func runCase(phase string, i int) (res worker.Result) {
 		}
 		if c.Subject != nil {
 			if !push(emptyDesc) || !push(*c.Subject) {
-				return res
+				return false
 			}
 		}
 		if c.Config != nil && !push(*c.Config) {
-			return res
+			return false
 		}
 		for _, l := range c.Layers {
 			if !push(l) {
-				return res
+				return false
 			}
 		}
+		return true
+	}
+	if suppliedPresent && !pushSupplied() {
+		return res
 	}
 	switch c.Preload {
 	case "placeholders":
@@ -1140,101 +1155,109 @@ func runCase(phase string, i int) (res worker.Result) {
 	}
 	res.Count("successes", 1)
 
-	// ---- success: the stored bytes
-	raw, ferr := content.FetchAll(ctx, tgt, desc)
-	if ferr != nil {
-		res.Violate("result-not-stored", fmt.Sprintf("FetchAll(returned descriptor) from %s: %v", c.Target, ferr), w)
-		return res
-	}
-	if digest.FromBytes(raw) != desc.Digest || int64(len(raw)) != desc.Size {
-		res.Violate("descriptor-mismatch", "returned digest/size do not describe the stored bytes", w)
-		return res
-	}
-	var got map[string]any
-	if jerr := json.Unmarshal(raw, &got); jerr != nil {
-		res.Violate("not-json", "stored manifest does not parse: "+jerr.Error(), w)
-		return res
-	}
-	w["stored"] = string(raw)
-	if mt, _ := got["mediaType"].(string); mt != desc.MediaType || !isManifestType(desc.MediaType) {
-		res.Violate("media-type", fmt.Sprintf("returned media type %q, manifest says %q", desc.MediaType, got["mediaType"]), w)
-		return res
-	}
-	if isManifestType(desc.MediaType) {
-		var typed any = &ocispec.Manifest{}
-		if desc.MediaType == mtArtifactManifest {
-			typed = &struct {
-				MediaType    string               `json:"mediaType"`
-				ArtifactType string               `json:"artifactType"`
-				Blobs        []ocispec.Descriptor `json:"blobs"`
-				Subject      *ocispec.Descriptor  `json:"subject"`
-				Annotations  map[string]string    `json:"annotations"`
-			}{}
+	// judge: the success oracles for one returned descriptor (also used for later packs of a history)
+	judge := func(c *caseIn, e expectation, desc ocispec.Descriptor, stage string) bool {
+		w["stage"] = stage
+		// ---- success: the stored bytes
+		raw, ferr := content.FetchAll(ctx, tgt, desc)
+		if ferr != nil {
+			res.Violate("result-not-stored", fmt.Sprintf("FetchAll(returned descriptor) from %s: %v", c.Target, ferr), w)
+			return false
 		}
-		dec := json.NewDecoder(bytes.NewReader(raw))
-		dec.DisallowUnknownFields()
-		if jerr := dec.Decode(typed); jerr != nil {
-			res.Violate("not-a-manifest", "stored bytes do not decode as "+desc.MediaType+": "+jerr.Error(), w)
-			return res
+		if digest.FromBytes(raw) != desc.Digest || int64(len(raw)) != desc.Size {
+			res.Violate("descriptor-mismatch", "returned digest/size do not describe the stored bytes", w)
+			return false
 		}
-	}
-	// created
-	gotAnn, _ := got["annotations"].(map[string]any)
-	if e.CreatedFill {
-		v, _ := gotAnn[e.CreatedKey].(string)
-		if createdClass(v) != "valid" {
-			res.Violate("created-not-filled", fmt.Sprintf("annotation %s = %q is not an RFC 3339 time", e.CreatedKey, v), w)
-			return res
+		var got map[string]any
+		if jerr := json.Unmarshal(raw, &got); jerr != nil {
+			res.Violate("not-json", "stored manifest does not parse: "+jerr.Error(), w)
+			return false
 		}
-		delete(gotAnn, e.CreatedKey)
-	}
-	want := normalise(e.Doc)
-	have := normalise(got)
-	if !reflect.DeepEqual(want, have) {
-		wj, _ := json.Marshal(want)
-		hj, _ := json.Marshal(have)
-		field := "?"
-		wm, hm := want.(map[string]any), have.(map[string]any)
-		for _, k := range []string{"schemaVersion", "mediaType", "artifactType", "config", "layers", "blobs", "subject", "annotations"} {
-			if !reflect.DeepEqual(wm[k], hm[k]) {
-				field = k
-				break
+		w["stored"] = string(raw)
+		if mt, _ := got["mediaType"].(string); mt != desc.MediaType || !isManifestType(desc.MediaType) {
+			res.Violate("media-type", fmt.Sprintf("returned media type %q, manifest says %q", desc.MediaType, got["mediaType"]), w)
+			return false
+		}
+		if isManifestType(desc.MediaType) {
+			var typed any = &ocispec.Manifest{}
+			if desc.MediaType == mtArtifactManifest {
+				typed = &struct {
+					MediaType    string               `json:"mediaType"`
+					ArtifactType string               `json:"artifactType"`
+					Blobs        []ocispec.Descriptor `json:"blobs"`
+					Subject      *ocispec.Descriptor  `json:"subject"`
+					Annotations  map[string]string    `json:"annotations"`
+				}{}
+			}
+			dec := json.NewDecoder(bytes.NewReader(raw))
+			dec.DisallowUnknownFields()
+			if jerr := dec.Decode(typed); jerr != nil {
+				res.Violate("not-a-manifest", "stored bytes do not decode as "+desc.MediaType+": "+jerr.Error(), w)
+				return false
 			}
 		}
-		if field == "?" {
-			field = "extra-field"
+		// created
+		gotAnn, _ := got["annotations"].(map[string]any)
+		if e.CreatedFill {
+			v, _ := gotAnn[e.CreatedKey].(string)
+			if createdClass(v) != "valid" {
+				res.Violate("created-not-filled", fmt.Sprintf("annotation %s = %q is not an RFC 3339 time", e.CreatedKey, v), w)
+				return false
+			}
+			delete(gotAnn, e.CreatedKey)
 		}
-		w["expected"] = string(wj)
-		w["stored_normalised"] = string(hj)
-		res.Violate("content:"+c.Entry+":"+field, fmt.Sprintf("stored manifest differs from the requested one in %s", field), w)
+		want := normalise(e.Doc)
+		have := normalise(got)
+		if !reflect.DeepEqual(want, have) {
+			wj, _ := json.Marshal(want)
+			hj, _ := json.Marshal(have)
+			field := "?"
+			wm, hm := want.(map[string]any), have.(map[string]any)
+			for _, k := range []string{"schemaVersion", "mediaType", "artifactType", "config", "layers", "blobs", "subject", "annotations"} {
+				if !reflect.DeepEqual(wm[k], hm[k]) {
+					field = k
+					break
+				}
+			}
+			if field == "?" {
+				field = "extra-field"
+			}
+			w["expected"] = string(wj)
+			w["stored_normalised"] = string(hj)
+			res.Violate("content:"+c.Entry+":"+field, fmt.Sprintf("stored manifest differs from the requested one in %s", field), w)
+			return false
+		}
+		// invented blobs exist
+		for _, d := range e.Invented {
+			ok, xerr := tgt.Exists(ctx, d)
+			if xerr != nil || !ok {
+				res.Violate("invented-blob-missing", fmt.Sprintf("invented blob %s (%s) is not in the target (err %v)", d.Digest, d.MediaType, xerr), w)
+				return false
+			}
+			b, ferr := content.FetchAll(ctx, tgt, d)
+			if ferr != nil || string(b) != "{}" {
+				res.Violate("invented-blob-missing", fmt.Sprintf("invented blob %s (%s) cannot be fetched as {} (err %v)", d.Digest, d.MediaType, ferr), w)
+				return false
+			}
+		}
+		res.Count("invented_blobs_checked", int64(len(e.Invented)))
+		// copyable
+		if suppliedPresent {
+			dst := memory.New()
+			if cerr := oras.CopyGraph(ctx, tgt, dst, desc, oras.DefaultCopyGraphOptions); cerr != nil {
+				res.Violate("not-copyable", "CopyGraph of the result into an empty memory store: "+cerr.Error(), w)
+				return false
+			}
+			if ok, _ := dst.Exists(ctx, desc); !ok {
+				res.Violate("not-copyable", "CopyGraph succeeded but the manifest is not in the destination", w)
+				return false
+			}
+			res.Count("copygraph_ok", 1)
+		}
+		return true
+	}
+	if !judge(c, e, desc, "first pack") {
 		return res
-	}
-	// invented blobs exist
-	for _, d := range e.Invented {
-		ok, xerr := tgt.Exists(ctx, d)
-		if xerr != nil || !ok {
-			res.Violate("invented-blob-missing", fmt.Sprintf("invented blob %s (%s) is not in the target (err %v)", d.Digest, d.MediaType, xerr), w)
-			return res
-		}
-		b, ferr := content.FetchAll(ctx, tgt, d)
-		if ferr != nil || string(b) != "{}" {
-			res.Violate("invented-blob-missing", fmt.Sprintf("invented blob %s (%s) cannot be fetched as {} (err %v)", d.Digest, d.MediaType, ferr), w)
-			return res
-		}
-	}
-	res.Count("invented_blobs_checked", int64(len(e.Invented)))
-	// copyable
-	if suppliedPresent {
-		dst := memory.New()
-		if cerr := oras.CopyGraph(ctx, tgt, dst, desc, oras.DefaultCopyGraphOptions); cerr != nil {
-			res.Violate("not-copyable", "CopyGraph of the result into an empty memory store: "+cerr.Error(), w)
-			return res
-		}
-		if ok, _ := dst.Exists(ctx, desc); !ok {
-			res.Violate("not-copyable", "CopyGraph succeeded but the manifest is not in the destination", w)
-			return res
-		}
-		res.Count("copygraph_ok", 1)
 	}
 	res.NT = true
 
@@ -1264,6 +1287,60 @@ func runCase(phase string, i int) (res worker.Result) {
 			return res
 		}
 		res.Count("determinism_checked", 1)
+	}
+
+	// ---- history on the same target object: pack → delete → pack again
+	if c.Redo != "" && c.Race == "quiet" && (h.OCI != nil || h.Repo != nil) {
+		w["history"] = c.DeleteHow + " → " + c.Redo
+		del := func(d ocispec.Descriptor) error {
+			if h.OCI != nil {
+				return h.OCI.Delete(ctx, d)
+			}
+			return h.Repo.Delete(ctx, d)
+		}
+		if h.OCI != nil && c.DeleteHow == "manifest-then-blobs" {
+			h.OCI.AutoGC = false
+		}
+		var derr error
+		if c.DeleteHow != "blobs" {
+			derr = del(desc)
+		}
+		if derr == nil && (c.DeleteHow != "manifest-gc" || h.Repo != nil) {
+			for _, d := range e.Invented {
+				if err := del(d); err != nil && !errors.Is(err, errdef.ErrNotFound) && derr == nil {
+					derr = err
+				}
+			}
+		}
+		if derr != nil {
+			res.Inconc = "history: delete failed: " + derr.Error()
+			return res
+		}
+		// the caller's own blobs may have been collected with the manifest: supply them again
+		if suppliedPresent && !pushSupplied() {
+			return res
+		}
+		c2 := *c
+		if c.Redo == "variant" {
+			c2.Ann = map[string]string{"org.example.history": "second pack"}
+			for k, v := range c.Ann {
+				c2.Ann[k] = v
+			}
+		}
+		e2 := expect(&c2)
+		rec.take()
+		desc2, err2 := invoke(&c2, pusher)
+		w["calls_second_pack"] = rec.take()
+		w["returned_second_pack"] = desc2
+		if err2 != nil {
+			res.Violate("valid-input-rejected:after-delete", fmt.Sprintf("%s after %s failed: %v", c.Entry, c.DeleteHow, err2), w)
+			return res
+		}
+		if !judge(&c2, e2, desc2, "second pack after "+c.DeleteHow) {
+			return res
+		}
+		res.Count("pack_delete_pack_histories", 1)
+		res.Observe("delete_histories", c.Target+"/"+c.DeleteHow+"/"+c.Redo)
 	}
 	if i%500 == 0 {
 		delete(w, "calls_repeat")
